@@ -6,7 +6,9 @@ from vlib import Unit, Obl
 _spec = importlib.util.spec_from_file_location('prop_C15_for_C21', os.path.join(os.path.dirname(os.path.abspath(__file__)), 'C15.py'))
 _c15 = importlib.util.module_from_spec(_spec); _spec.loader.exec_module(_c15)
 
-UNITS = {'c21': Unit('c21', wrapper_text=_c15.wrapper, roots=['k_write', 'k_read', 'k_waitstatus'], libs=[], cflags=['-DHAS_THREADING_MODEL_FORK'])}
+UNITS = {'c21': Unit('c21', wrapper_text=_c15.wrapper, roots=['k_write', 'k_read', 'k_waitstatus'], libs=[], cflags=['-DHAS_THREADING_MODEL_FORK'], shim=False,
+                     # payloads stay within std::string's 15-byte local buffer: the heap paths are declared unreachable (asserted)
+                     cuts=['_ZNSt7__cxx1112basic_stringIcSt11char_traitsIcESaIcEE9_M_createERmm', '_ZNSt7__cxx1112basic_stringIcSt11char_traitsIcESaIcEE9_M_mutateEmmPKcm'])}
 META = dict(_c15.META)
 META['assumptions'] = _c15.META['assumptions'] + ['wait-status encoding of Linux/glibc (bits/waitstatus.h)', 'crash points: before the first message, between complete messages and after the last one (a worker dying between the three write() calls of ONE message makes the real code call std::exit -- reported as an observation, outside the property as worded)']
 def obligations(tier):
@@ -15,7 +17,8 @@ def obligations(tier):
         Obl('wait.status', 'c21', 'props/C15/harness_wait.c', 'every abnormal wait status (non-zero exit code or signal) reaches reportInternalChildErr with the worker\'s file name; a clean exit reports nothing',
             'all 32-bit wait status values', backend='sat', timeout=900, mem_gb=8, unwind_max=40, max_rounds=30),
         Obl('eof.boundary.L%d' % L, 'c21', 'props/C15/harness_ipc.c', 'a worker that disappears at a message boundary: handleRead returns "child done", delivers nothing and increments the result (non-zero exit status); the messages before it are delivered',
-            'one complete message of <= %d payload bytes then EOF, every read schedule' % L, defines={'L': L, 'MODE': 0}, backend='sat', timeout=1500, mem_gb=14, unwind_max=40, max_rounds=40),
+            'one complete message of <= %d payload bytes then EOF, every read schedule' % L, defines={'L': L, 'MODE': 0}, backend='sat', timeout=3000, mem_gb=16, unwind_max=40, max_rounds=40,
+            hints={'k_read.1': 9, 'll_read.0': 9, 'll_write.0': 6, 'sstr_sym.0': L + 1, 'check_delivery.0': L + 1, 'check_delivery.1': L + 1}),
     ]
 MANIFEST = {
     'text': 'Bounded model checking of the verbatim wait-status decision of ProcessExecutor::check (all 2^32 status values) and of the verbatim body of ProcessExecutor::handleRead at end-of-stream after complete messages: an abnormal worker exit is always reported with the worker\'s file name, and a vanished worker makes the parent finish that pipe with a non-zero result. Kernel-level: the select/waitpid loop bookkeeping is outside.',
